@@ -330,6 +330,14 @@ func c09NestProp(st *CaseStats, fam int) func(t *rapid.T) {
 				storedDocs = append(storedDocs, d)
 			}
 		}
+		cancelledFirst := false
+		if rapid.IntRange(0, 2).Draw(t, "cancelledMergeFirst") == 0 {
+			// a cancelled merge of the segment (pooled visit contexts) must not disturb later nested reads
+			if _, err := (rop{kind: 8}).run(&ropEnv{seg: c.Seg, dvr: map[string]segment.DocumentValueReader{}}); err != nil {
+				t.Fatalf("case %s %s: cancelled merge: %v", sc, c.Desc, err)
+			}
+			cancelledFirst = true
+		}
 		n := rapid.IntRange(1, 3).Draw(t, "nPlans")
 		ns := &nestStats{}
 		var plans []string
@@ -346,6 +354,9 @@ func c09NestProp(st *CaseStats, fam int) func(t *rapid.T) {
 			labels = append(labels, "nested-stored-visit-other-block-while-outer-has-more")
 		}
 		labels = append(labels, fmt.Sprintf("depth-%d", ns.maxDepth))
+		if cancelledFirst {
+			labels = append(labels, "after-cancelled-merge")
+		}
 		st.Record(fmt.Sprintf("%s %s plans=%v", sc, c.Desc, plans), ns.crossBlockLive || ns.maxDepth >= 2, labels...)
 	}
 }
